@@ -6,7 +6,8 @@ from . import common, sizes
 SPEC_THEOREM = 'Props/C03: strict reading of the rendering gives the document back; pretty = compact + insignificant whitespace'
 TRUSTED = ['Coq 8.16.1 kernel', 'translator (escape table)', 'extraction + OCaml driver', 'Rust harness',
            'model Render.v (view-level mirror of container_to_string / escape_scalar_string); ryu modelled by a parameter',
-           'Python json (strict, constants rejected) as the independent strict parser']
+           'Python json (strict, constants rejected) as the independent strict parser',
+           'model ValueApi.v of `impl Display for Value` incl. str Debug escaping; generated table coq/DebugTable.v (tools/gen_debug_table.sh: which non-ASCII chars the toolchain escapes), tied by the display cases (every table boundary)']
 ASSUMPTIONS = ['documents are canonical encodings of well-formed values with finite numbers', 'float text is compared by the double it denotes (std parse) and by RFC 8259 number grammar, not byte-wise']
 RULE = 'values whose strings and keys enumerate U+0000..U+001F, quote, backslash, slash, DEL, U+0080, U+2028/9, U+FFFF, astral plus random; floats from the boundary pool; non-trivial = rendering contains an escape, a float or a nested container'
 
@@ -90,6 +91,7 @@ def generate(ctx):
     ctx.ds = ds
     ctx.trials = []
     non_jsonb_stream(ctx)
+    display_stream(ctx, ds)
     # strings / keys of 255 .. 65536 bytes (also multi-byte text crossing 256) and containers of 255 .. 1000 members (sizes.py;
     # second review H2).  The model's renderer is quadratic in a string (0.2 s at 4 KiB, ~100 s at 64 KiB): the documents with a
     # 64 KiB string are rendered by the implementation only and judged by the strict parser below (too_big_for_model)
@@ -165,11 +167,95 @@ def non_jsonb_stream(ctx):
         ctx.count('non_jsonb_inputs', 'well-formed UTF-8' if wf else 'ill-formed UTF-8')
 
 
+def debug_escaped_ranges():
+    """the generated table coq/DebugTable.v: closed ranges of code points >= U+0080 that <str as Debug>::fmt prints as \\u{..}"""
+    import os, re
+    from .. import core
+    txt = open(os.path.join(core.COQ, 'DebugTable.v')).read()
+    return [(int(a), int(b)) for a, b in re.findall(r'\((\d+), (\d+)\)', txt)]
+
+
+def display_safe_for_tokeniser(v):
+    """no quote / backslash in any key: Display writes keys raw, so the harness's float canonicaliser (which tracks string literals)
+    can only be used on such values"""
+    return all(b'"' not in k and b'\\' not in k for k in common.keys_of(v))
+
+
+def without_finite_floats(v):
+    k = v[0]
+    if k == 'd' and not (gen.f_is_nan(v[1]) or gen.f_is_inf(v[1])):
+        return ('u', 7)
+    if k == 'a':
+        return ('a', [without_finite_floats(x) for x in v[1]])
+    if k == 'o':
+        return ('o', [(kk, without_finite_floats(x)) for kk, x in v[1]])
+    return v
+
+
+def plain_value(v):
+    """strings and keys of printable ASCII without quote and backslash (ValueApi.plain_value)"""
+    ok = lambda b: all(0x20 <= c < 0x7f and c not in (0x22, 0x5c) for c in b)
+    return all(ok(x[1]) for x in gen.subvalues(v) if x[0] == 's') and all(ok(k) for k in common.keys_of(v))
+
+
+def display_stream(ctx, ds):
+    """`impl Display for Value` (value.rs; model coq/ValueApi.v display_t): strings through `{:?}` (str's Debug escaping), keys
+    raw, numbers as to_string prints them.  The corpus as trees, every ASCII char and every special code point in a string and in
+    a key, and every boundary of the generated table of non-ASCII chars that Debug escapes (DebugTable.v).  Values whose keys hold
+    a quote or a backslash are compared byte for byte (op display_bytes; finite floats replaced by an integer), the others with the
+    float tokens canonicalised (op display) like to_string.  Tie only: no listed property speaks about Display.  On values with
+    plain strings and keys the two renderers agree (Props/ValueApi.v ValueApi_display_agrees_*): counted, the diff decides."""
+    r = ctx.rng
+    ctx.display_plain = []
+    vals = [v for v in ds if gen.nodes(v) <= 700]
+    # every ASCII char, alone and between letters, as a string and as a key
+    for c in range(128):
+        for st in (bytes([c]), b'a' + bytes([c]) + b'b'):
+            vals.append(('s', st))
+            vals.append(('o', [(st, ('a', [('s', st), ('u', 1)]))]))
+    vals.append(('s', bytes(range(128))))
+    vals.append(('o', [(bytes(range(128)), ('n',))]))
+    for cp in gen.CODEPOINTS_SPECIAL:
+        st = ('x' + chr(cp) + 'y').encode('utf-8')
+        vals += [('s', st), ('o', [(st, ('s', st))])]
+    # boundaries of the escaped ranges: lo - 1, lo, hi, hi + 1 (scalar values only), in strings of 40 chars and one per string
+    cps = set()
+    for lo, hi in debug_escaped_ranges():
+        cps.update(x for x in (lo - 1, lo, (lo + hi) // 2, hi, hi + 1) if 0x80 <= x <= 0x10FFFF and not 0xD800 <= x <= 0xDFFF)
+    cps = sorted(cps)
+    ctx.count('display_debug_table_boundary_code_points', n=len(cps))
+    for i in range(0, len(cps), 40):
+        st = ''.join(chr(x) for x in cps[i:i + 40]).encode('utf-8')
+        vals += [('s', st), ('o', [(st, ('s', b'v'))])]
+    for x in r.sample(cps, min(len(cps), ctx.scale(300, 4000))):
+        vals.append(('s', chr(x).encode('utf-8')))
+    for _ in range(ctx.scale(300, 6000)):
+        st = ''.join(chr(ctx.g.codepoint()) for _ in range(r.randrange(1, 10))).encode('utf-8')
+        vals.append(r.choice([('s', st), ('a', [('s', st), ('d', r.choice(gen.FLOAT_POOL))]), ('o', [(st, ('s', st))])]))
+    vals += [('d', x) for x in gen.FLOAT_POOL + gen.SPECIAL_FLOATS]
+    for v in vals:
+        if display_safe_for_tokeniser(v):
+            ctx.add('display %s' % gen.vtext(v), kind='display')
+        else:
+            ctx.add('display_bytes %s' % gen.vtext(without_finite_floats(v)), kind='display')
+        if plain_value(v) and gen.is_finite(v):
+            ids = (ctx.add('display_bytes %s' % gen.vtext(v), diff=False, kind='display').id,
+                   ctx.add('to_string_raw %s' % gen.hexarg(gen.enc(v)), diff=False).id)
+            ctx.display_plain.append((v, ids))
+
+
+def judge_display(ctx):
+    for v, ids in getattr(ctx, 'display_plain', []):
+        d, t = [ctx.impl.get(i, 'missing') for i in ids]
+        ctx.count('display_vs_to_string_on_plain_values', 'same bytes' if d == t else 'DIFFERENT')
+
+
 ILL_FORMED_DIFF = True      # the model's text branch applies `lossy` (second review, M2): ill-formed inputs are diffed too
 
 
 def judge(ctx):
     impl = ctx.impl
+    judge_display(ctx)
     for cid, line, b in ctx.non_jsonb:
         o = impl.get(cid, 'missing')
         want = 'ok ' + gen.hexarg(b.decode('utf-8', 'replace').encode('utf-8'))
